@@ -327,7 +327,8 @@ class Ctx:
             log("VIOLATION property=%s replay=%s" % (self.pid, v["replay"]))
             log("  " + json.dumps(v["record"], default=str)[:600])
         assert_repo_clean()
-        shutil.rmtree(self.work, ignore_errors=True)
+        if not os.environ.get("VERIF_KEEP"):      # VERIF_KEEP=1: leave the work directory for inspection
+            shutil.rmtree(self.work, ignore_errors=True)
         log("%s %s seed=%d: %s  (%d evaluations, %d distinct, %d states, %d traces, %.1fs)" % (
             self.pid, self.tier, self.seed, "VIOLATED" if self.violations else "held",
             self.evaluations, len(self.distinct), self.states, self.traces, wall))
